@@ -252,9 +252,10 @@ Proof. exact @cost_bound. Qed.
 Print Assumptions C02_cost.
 
 (* the same after ANY history, on any handle, at the Tree level (Tree.Contains/Add/Remove test
-   root == nil first): [op_calls] - the function Avl/Check.v compares EXACTLY with the number of
-   calls counted on the real code by a wrapping comparator - gives for an Add / Remove / Contains
-   issued in the state after [ops] at most height+1 calls and at most 1.4405*log2(Len+2) *)
+   root == nil first): [op_calls] - the entries of [run_calls], the list Avl/Check.v compares
+   EXACTLY with the calls counted on the real code by a wrapping comparator (C02_run_calls_entry,
+   C02_run_calls_every_entry below) - gives for an Add / Remove / Contains issued in the state
+   after [ops] at most height+1 calls and at most 1.4405*log2(Len+2) *)
 Theorem C02_cost_after_history :
   forall (A : Type) (eqb : A -> A -> bool) (cmp : A -> A -> Z) (ops : list op) (h : nat) (value : A) (t : Tree),
   nth_error (fst (run_history eqb cmp ops)) h = Some t ->
@@ -270,6 +271,36 @@ Theorem C02_cost_after_history :
   2 ^ (10000 * Z.of_nat (Tree_Remove_calls eqb cmp t value)) <= (Tree_Len t + 2) ^ 14405.
 Proof. exact @history_calls. Qed.
 Print Assumptions C02_cost_after_history.
+
+(* [run_calls] IS [op_calls] entry by entry: the last entry of a history extended by one op is
+   op_calls of that op in the state the history reaches *)
+Theorem C02_run_calls_entry :
+  forall (A : Type) (eqb : A -> A -> bool) (cmp : A -> A -> Z) (ops : list op) (ts : list Tree) (o : op),
+  run_calls eqb cmp ts (ops ++ [o]) =
+  run_calls eqb cmp ts ops ++ [op_calls eqb cmp (fst (run eqb cmp ts ops)) o].
+Proof. exact @run_calls_snoc. Qed.
+Print Assumptions C02_run_calls_entry.
+
+(* the bound for EVERY entry of the list the check compares: if entry i of run_calls of a history is
+   Some k, then op i exists, k is its op_calls in the state after the first i ops, it ran on a handle
+   h holding a tree T there, and k <= height T + 1 and k <= 1.4405*log2(Len T + 2) *)
+Theorem C02_run_calls_every_entry :
+  forall (A : Type) (eqb : A -> A -> bool) (cmp : A -> A -> Z) (ops : list op) (i k : nat),
+  nth_error (run_calls eqb cmp [empty_Tree] ops) i = Some (Some k) ->
+  exists (o : op) (h : nat) (T : Tree),
+    nth_error ops i = Some o /\
+    op_calls eqb cmp (fst (run_history eqb cmp (firstn i ops))) o = Some k /\
+    nth_error (fst (run_history eqb cmp (firstn i ops))) h = Some T /\
+    Z.of_nat k <= height (root T) + 1 /\
+    2 ^ (10000 * Z.of_nat k) <= (Tree_Len T + 2) ^ 14405.
+Proof. exact @history_run_calls. Qed.
+Print Assumptions C02_run_calls_every_entry.
+
+(* the hypothesis is inhabited: entry 6 of the calls of adds 1..7 is Some 3 (third level of a 6-node tree) *)
+Example C02_run_calls_every_entry_example :
+  nth_error (run_calls Z.eqb zcompare [empty_Tree] (adds [1;2;3;4;5;6;7])) 6 = Some (Some 3%nat) /\
+  option_map Tree_Len (nth_error (fst (run_history Z.eqb zcompare (firstn 6 (adds [1;2;3;4;5;6;7])))) 0) = Some 6.
+Proof. vm_compute. split; reflexivity. Qed.
 
 (* instance: after adds 1..7 (the perfect tree of 3 levels, handle 0 exists) the calls of every op of the
    continuation Contains 7; Add 8; Remove 1; Remove 9 (absent); Len; Contains on a bad handle *)
